@@ -429,7 +429,20 @@ def r6_files_read_afresh(ctx):
     ctx.ok("C12.R6", ("leaspy", "<package>"), None, f"{len(list(ctx.ix.iter_funcs()))} functions scanned: no memoised function reads the file system", construct="package-wide scan")
 
 
+def r7_trajectories_from_the_current_state(ctx):
+    """'A fitted model is self-consistent': what estimate returns is computed from the model's current parameters - the same a saved and
+    re-loaded copy would use.  A scratch state or memo kept on the model object by the read-only API survives the next fit."""
+    from ._shared import model_stores_in_read_api
+    ctx.rule("C12.R7", "estimate / compute_*_trajectory keep nothing on the model object (their answer is a function of the current state)", 1)
+    sites, n_region = model_stores_in_read_api(ctx)
+    for f, st, attr in sites:
+        ctx.violation("C12.R7", f, st, f"`{U(st)[:70]}` keeps `self.{attr}` on the model from a method reached by estimate: after the next fit / load the trajectories still come from what was "
+                      "remembered, and differ from those of the saved-and-reloaded model")
+    ctx.ok("C12.R7", ("leaspy.models", "<package>"), None, f"{n_region} functions reachable from the read-only API: no attribute of the model is written", construct="read-only API")
+
+
 def rules(ctx):
+    r7_trajectories_from_the_current_state(ctx)
     r6_files_read_afresh(ctx)
     r1_name(ctx)
     r2_hyperparameters(ctx)
